@@ -193,6 +193,9 @@ func evalC09(c c09Case, o *Obs) error {
 				sawInsert = true
 			}
 			o.Class("C09:add-len%%4=%d", len(op.Data)%4)
+			if len(op.Data) > 520 {
+				o.Class("C09:add-item>520-bytes")
+			}
 		case "addhash":
 			f.AddHash(toHash(op.Data))
 			m.add(toHash(op.Data)[:])
@@ -338,7 +341,11 @@ func genC09(t *rapid.T) c09Case {
 	pool := [][]byte{}
 	np := rapid.IntRange(1, 6).Draw(t, "pool")
 	for i := 0; i < np; i++ {
-		pool = append(pool, genBytes(t, "item", 0, 70))
+		if rapid.IntRange(0, 7).Draw(t, "long") == 0 { // long items (script-sized and beyond the 520-byte push limit)
+			pool = append(pool, genBytes(t, "longitem", 71, 1200))
+		} else {
+			pool = append(pool, genBytes(t, "item", 0, 70))
+		}
 	}
 	item := func() []byte {
 		if rapid.IntRange(0, 4).Draw(t, "fresh") == 0 {
@@ -491,6 +498,6 @@ func TestC09(t *testing.T) {
 		kC09Murmur.Run(t, ev, perShard(pick(3000, 300000)))
 		kC09Size.Run(t, ev, perShard(pick(2000, 200000)))
 		ev.requireClasses("C09:k=0", "C09:k=50", "C09:len-class=1", "C09:len-class=36000", "C09:reload", "C09:unload",
-			"C09:add-len%4=0", "C09:add-len%4=1", "C09:add-len%4=2", "C09:add-len%4=3", "C09:sized-nonempty")
+			"C09:add-len%4=0", "C09:add-len%4=1", "C09:add-len%4=2", "C09:add-len%4=3", "C09:sized-nonempty", "C09:add-item>520-bytes")
 	})
 }
